@@ -474,42 +474,34 @@ def _one(ctx, ops, cid, pseed):
     return run_recipe(ctx, {"ops": ops, "pseed": pseed}, cid)
 
 
-def generate(ctx: Ctx) -> List[Case]:
+def gen_part(ctx: Ctx, kind: str, n: int, prefix: str) -> List[Case]:
+    """n cases of one kind from ctx.rng (inline in the quick tier, in worker processes in the thorough tier)"""
     rng = ctx.rng
-    thorough = ctx.thorough
-    n_round = 30000 if thorough else 2600
-    n_raw = 12000 if thorough else 900
-    n_hist = 3000 if thorough else 330
-    n_fill = 40 if thorough else 6
     cases: List[Case] = []
-    i = 0
-    for rec in CORPUS:
-        cases.append(run_recipe(ctx, rec, f"corpus{i}"))
-        i += 1
-    # (i) round trips, a few datagrams per case (sync / async delivery mixed in)
-    for _ in range(n_round // 2):
-        ops = []
-        for r in range(2):
-            spec = rand_spec(rng)
-            kind = "dec" if rng.random() < 0.8 else "recv"
-            op = [kind, r, spec, list(rng.choice(SOURCES)), list(rng.choice(LOCALS) or []) or None]
-            if kind == "recv":
-                op.append(rng.choice(["sync", "async"]))
-            ops.append(op)
-        cases.append(_one(ctx, ops, f"rt{i}", rng.randrange(1 << 30)))
-        i += 1
-        if ctx.time_left() < 60:
-            break
-    # (iv) malformed stream
-    for _ in range(n_raw // 2):
-        ops = []
-        for r in range(2):
-            kind = "dec" if rng.random() < 0.6 else "recv"
-            ops.append([kind, r, raw_spec(rng), list(rng.choice(SOURCES)), None])
-        cases.append(_one(ctx, ops, f"raw{i}", rng.randrange(1 << 30)))
-        i += 1
-    # (ii) histories: exhaustive orders over the alphabet (thorough), random with mutations, eviction runs
-    if thorough:
+    if kind == "rt":
+        # (i) round trips, two datagrams per case (sync / async delivery mixed in)
+        for _ in range(n):
+            ops = []
+            for r in range(2):
+                spec = rand_spec(rng)
+                k = "dec" if rng.random() < 0.8 else "recv"
+                op = [k, r, spec, list(rng.choice(SOURCES)), list(rng.choice(LOCALS) or []) or None]
+                if k == "recv":
+                    op.append(rng.choice(["sync", "async"]))
+                ops.append(op)
+            cases.append(_one(ctx, ops, f"{prefix}{len(cases)}", rng.randrange(1 << 30)))
+            if ctx.time_left() < 60:
+                break
+    elif kind == "raw":
+        # (iv) malformed stream
+        for _ in range(n):
+            ops = []
+            for r in range(2):
+                k = "dec" if rng.random() < 0.6 else "recv"
+                ops.append([k, r, raw_spec(rng), list(rng.choice(SOURCES)), None])
+            cases.append(_one(ctx, ops, f"{prefix}{len(cases)}", rng.randrange(1 << 30)))
+    elif kind == "ex4":
+        # (ii) all orders of 4 decodes over (3 datagrams x 2 sources), earlier results mutated in between
         alpha_ops = [["dec", k % 4, ALPHA[k % 3], list(ALPHA_SRC[k // 3]), None] for k in range(6)]
         for seq in itertools.product(range(6), repeat=4):
             ops = []
@@ -521,14 +513,57 @@ def generate(ctx: Ctx) -> List[Case]:
                     ops.append(["set", 0, "location", "http://evil/"])
                 if j == 2:
                     ops.append(["del", 1, "usn"])
-            cases.append(_one(ctx, ops, f"ex{i}", 0))
-            i += 1
-    for _ in range(n_hist):
-        cases.append(_one(ctx, history(rng, rng.randrange(2, 7), False), f"h{i}", rng.randrange(1 << 30)))
-        i += 1
-    for _ in range(n_fill):
-        cases.append(_one(ctx, history(rng, rng.randrange(2, 5), True), f"ev{i}", rng.randrange(1 << 30)))
-        i += 1
+            cases.append(_one(ctx, ops, f"{prefix}{len(cases)}", 0))
+    elif kind == "ex6":
+        # (ii) all orders of up to 6 decodes over the 3-datagram alphabet from one source
+        for depth in range(1, 7):
+            for seq in itertools.product(range(3), repeat=depth):
+                ops = []
+                for j, k in enumerate(seq):
+                    ops.append(["dec" if j % 2 == 0 else "recv", j % 4, ALPHA[k], list(ALPHA_SRC[0]), None])
+                    if j == 2:
+                        ops.append(["repl", 0, [["X", "1"]]])
+                cases.append(_one(ctx, ops, f"{prefix}{len(cases)}", 0))
+    elif kind == "hist":
+        for _ in range(n):
+            cases.append(_one(ctx, history(rng, rng.randrange(2, 7), False), f"{prefix}{len(cases)}", rng.randrange(1 << 30)))
+    elif kind == "ev":
+        for _ in range(n):
+            cases.append(_one(ctx, history(rng, rng.randrange(2, 5), True), f"{prefix}{len(cases)}", rng.randrange(1 << 30)))
+    else:
+        raise ValueError(kind)
+    return cases
+
+
+def _worker(args) -> List[Case]:
+    import time
+    from pathlib import Path
+
+    from vk import core
+
+    tier, seed, kind, n, prefix = args
+    core.activate_repo()
+    ctx = Ctx("C01", tier, seed, Path("/tmp"), time.time() + 1200)
+    return gen_part(ctx, kind, n, prefix)
+
+
+def generate(ctx: Ctx) -> List[Case]:
+    cases: List[Case] = []
+    for i, rec in enumerate(CORPUS):
+        cases.append(run_recipe(ctx, rec, f"corpus{i}"))
+    if not ctx.thorough:
+        for kind, n in (("rt", 1500), ("raw", 500), ("hist", 330), ("ev", 6)):
+            cases += gen_part(ctx, kind, n, kind)
+        return cases
+    import multiprocessing as mp
+
+    jobs = [("thorough", 0, "ex4", 0, "ex4-"), ("thorough", 0, "ex6", 0, "ex6-")]
+    for kind, n, chunks in (("rt", 4000, 12), ("raw", 1500, 8), ("hist", 600, 8), ("ev", 8, 8)):
+        for c in range(chunks):
+            jobs.append(("thorough", ctx.rng.randrange(1 << 30), kind, n, f"{kind}{c}-"))
+    with mp.Pool(min(16, mp.cpu_count())) as pool:
+        for part in pool.imap(_worker, jobs):
+            cases += part
     return cases
 
 
